@@ -11,9 +11,56 @@ package swagen31
 //@ emits validatedSpec(result0)
 
 // Placeholders: the three emitters change the document (any heap) but cause no event.
-// assumed frame: the model emitter fills components.schemas and writes schema objects only
-//@ func GenerateModelsSpec trusted
-//@ modifies any(elems(map[string]*base.SchemaProxy)), any(base.Schema), any(elems([]*yaml.Node)), any(elems([]string))
+// ---- struct / enum / alias components (C07, C11): the statements of the 3.0 emitters ----
+// the schema that carries the struct's own fields: the component itself, or the first member of its allOf
+//@ spec fieldsSchema31(c *base.SchemaProxy, m definitions.StructMetadata) *base.Schema = ite(swagtool.hasEmbedded(m), schemaOf(schemaOf(c).AllOf[0]), schemaOf(c))
+//@ func generateStructsSpec props C07,C11,C14
+//@ opaque swagtool.GetTagValue, swagtool.IsFieldRequired, swagtool.GetJsonNameFromTag
+//@ requires doc != nil && doc.Components != nil && doc.Components.Schemas != nil && doc.Components.Schemas.OrderedMap != nil
+//@ modifies elems(doc.Components.Schemas), any(base.Schema.Description), any(base.Schema.Deprecated), any(base.Schema.Format), any(base.Schema.ExclusiveMinimum), any(base.Schema.Minimum), any(base.Schema.ExclusiveMaximum), any(base.Schema.Maximum), any(base.Schema.MinLength), any(base.Schema.MaxLength), any(base.Schema.Pattern), any(base.Schema.MinItems), any(base.Schema.MaxItems), any(base.Schema.UniqueItems), any(base.Schema.Enum), any(elems([]*yaml.Node))
+//@ ensures reg: indom(doc.Components.Schemas, model.Name) && doc.Components.Schemas[model.Name] != nil && schemaOf(doc.Components.Schemas[model.Name]) != nil
+//@ ensures others: forall(n, string, implies(n != model.Name, indom(doc.Components.Schemas, n) == old(indom(doc.Components.Schemas, n)) && doc.Components.Schemas[n] == old(doc.Components.Schemas[n])))
+//@ ensures shape: implies(swagtool.hasEmbedded(model), len(schemaOf(doc.Components.Schemas[model.Name]).AllOf) >= 1 && schemaOf(doc.Components.Schemas[model.Name]).AllOf[0] != nil && schemaOf(schemaOf(doc.Components.Schemas[model.Name]).AllOf[0]) != nil)
+//@ ensures title: fieldsSchema31(doc.Components.Schemas[model.Name], model).Title == model.Name && fieldsSchema31(doc.Components.Schemas[model.Name], model).Description == model.Description
+//@ ensures props: forall(k, 0, len(model.Fields), implies(!model.Fields[k].IsEmbedded, indom(fieldsSchema31(doc.Components.Schemas[model.Name], model).Properties, swagtool.jsonName(model.Fields[k]))))
+// `required` is exactly the JSON names of the required fields, in field order
+//@ ensures reqLen: len(fieldsSchema31(doc.Components.Schemas[model.Name], model).Required) == swagtool.countReq(model, len(model.Fields))
+//@ ensures reqAt: forall(k, 0, len(model.Fields), implies(swagtool.isReqField(model.Fields[k]), fieldsSchema31(doc.Components.Schemas[model.Name], model).Required[swagtool.countReq(model, k)] == swagtool.jsonName(model.Fields[k])))
+//@ loop 0 invariant 0 <= _n && _n <= len(model.Fields) && fresh(requiredFields) && regularFieldsSchema != nil && fresh(regularFieldsSchema) && regularFieldsSchema.Properties != nil && fresh(regularFieldsSchema.Properties) && regularFieldsSchema.Properties.OrderedMap != nil && fresh(regularFieldsSchema.Properties.OrderedMap) && regularFieldsSchema.Title == model.Name && regularFieldsSchema.Description == model.Description && finalSchema != nil && fresh(finalSchema)
+//@ loop 0 invariant hasEmbeddedField == swagtool.hasEmbedded(model)
+//@ loop 0 invariant implies(!hasEmbeddedField, finalSchema == regularFieldsSchema) && implies(hasEmbeddedField, finalSchema != regularFieldsSchema && len(finalSchema.AllOf) >= 1 && fresh(finalSchema.AllOf) && finalSchema.AllOf[0] != nil && schemaOf(finalSchema.AllOf[0]) == regularFieldsSchema)
+//@ loop 0 invariant forall(n, string, indom(doc.Components.Schemas, n) == old(indom(doc.Components.Schemas, n)) && doc.Components.Schemas[n] == old(doc.Components.Schemas[n]))
+//@ loop 0 invariant forall(j, 0, _n, implies(!model.Fields[j].IsEmbedded, indom(regularFieldsSchema.Properties, swagtool.jsonName(model.Fields[j]))))
+//@ loop 0 invariant len(requiredFields) == swagtool.countReq(model, _n)
+//@ loop 0 invariant forall(k, 0, _n, 0 <= swagtool.countReq(model, k) && swagtool.countReq(model, k) <= swagtool.countReq(model, _n))
+//@ loop 0 invariant forall(k, 0, _n, implies(swagtool.isReqField(model.Fields[k]), swagtool.countReq(model, k) < swagtool.countReq(model, _n) && requiredFields[swagtool.countReq(model, k)] == swagtool.jsonName(model.Fields[k])))
+
+//@ func generateEnumsSpec props C07,C11,C14
+//@ requires doc != nil && doc.Components != nil && doc.Components.Schemas != nil && doc.Components.Schemas.OrderedMap != nil
+//@ modifies elems(doc.Components.Schemas)
+//@ ensures reg: indom(doc.Components.Schemas, model.Name) && doc.Components.Schemas[model.Name] != nil && schemaOf(doc.Components.Schemas[model.Name]) != nil
+//@ ensures shape: schemaOf(doc.Components.Schemas[model.Name]).Title == model.Name && schemaOf(doc.Components.Schemas[model.Name]).Description == model.Description && len(schemaOf(doc.Components.Schemas[model.Name]).Enum) == len(model.Values)
+//@ ensures values: forall(i, 0, len(model.Values), schemaOf(doc.Components.Schemas[model.Name]).Enum[i] != nil && schemaOf(doc.Components.Schemas[model.Name]).Enum[i].Value == model.Values[i])
+//@ ensures others: forall(n, string, implies(n != model.Name, indom(doc.Components.Schemas, n) == old(indom(doc.Components.Schemas, n)) && doc.Components.Schemas[n] == old(doc.Components.Schemas[n])))
+//@ loop 0 invariant 0 <= _n && _n <= len(model.Values) && len(enumValues) == _n && fresh(enumValues) && forall(i, 0, _n, enumValues[i] != nil && fresh(enumValues[i]) && enumValues[i].Value == model.Values[i])
+
+//@ func generateAliasSpec props C07,C11,C14
+//@ requires doc != nil && doc.Components != nil && doc.Components.Schemas != nil && doc.Components.Schemas.OrderedMap != nil
+//@ modifies elems(doc.Components.Schemas)
+//@ ensures reg: indom(doc.Components.Schemas, alias.Name) && doc.Components.Schemas[alias.Name] != nil && schemaOf(doc.Components.Schemas[alias.Name]) != nil && schemaOf(doc.Components.Schemas[alias.Name]).Title == alias.Name
+//@ ensures others: forall(n, string, implies(n != alias.Name, indom(doc.Components.Schemas, n) == old(indom(doc.Components.Schemas, n)) && doc.Components.Schemas[n] == old(doc.Components.Schemas[n])))
+
+// every enum, struct and alias model has a component under its name
+//@ func GenerateModelsSpec props C07,C11,C14
+//@ requires doc != nil && doc.Components != nil && doc.Components.Schemas != nil && doc.Components.Schemas.OrderedMap != nil && models != nil
+//@ modifies elems(doc.Components.Schemas), any(base.Schema.Description), any(base.Schema.Deprecated), any(base.Schema.Format), any(base.Schema.ExclusiveMinimum), any(base.Schema.Minimum), any(base.Schema.ExclusiveMaximum), any(base.Schema.Maximum), any(base.Schema.MinLength), any(base.Schema.MaxLength), any(base.Schema.Pattern), any(base.Schema.MinItems), any(base.Schema.MaxItems), any(base.Schema.UniqueItems), any(base.Schema.Enum), any(elems([]*yaml.Node))
+//@ ensures result == nil
+//@ ensures enums: forall(k, 0, len(models.Enums), indom(doc.Components.Schemas, models.Enums[k].Name))
+//@ ensures structs: forall(k, 0, len(models.Structs), indom(doc.Components.Schemas, models.Structs[k].Name))
+//@ ensures aliases: forall(k, 0, len(models.Aliases), indom(doc.Components.Schemas, models.Aliases[k].Name))
+//@ loop 0 invariant 0 <= _n && _n <= len(models.Enums) && forall(k, 0, _n, indom(doc.Components.Schemas, models.Enums[k].Name))
+//@ loop 1 invariant 0 <= _n && _n <= len(models.Structs) && forall(k, 0, len(models.Enums), indom(doc.Components.Schemas, models.Enums[k].Name)) && forall(k, 0, _n, indom(doc.Components.Schemas, models.Structs[k].Name))
+//@ loop 2 invariant 0 <= _n && _n <= len(models.Aliases) && forall(k, 0, len(models.Enums), indom(doc.Components.Schemas, models.Enums[k].Name)) && forall(k, 0, len(models.Structs), indom(doc.Components.Schemas, models.Structs[k].Name)) && forall(k, 0, _n, indom(doc.Components.Schemas, models.Aliases[k].Name))
 
 // What is serialised: the document as it stands when RenderJSON is called (its literal parts are event arguments)
 //@ event rendered31(version string, title string, description string, tos string, infoVersion string, nservers int, url string) local
@@ -22,7 +69,7 @@ package swagen31
 
 //@ func GenerateSpec props C08,C20,C01,C14
 //@ modifies any(v3.PathItem), any(elems(map[string]*v3.PathItem)), any(definitions.TypeMetadata.Name), any(elems(map[string]*v3.Response)), any(elems([]*v3.Parameter)), any(base.Schema.Format), any(base.Schema.ExclusiveMinimum), any(base.Schema.Minimum), any(base.Schema.ExclusiveMaximum), any(base.Schema.Maximum), any(base.Schema.MinLength), any(base.Schema.MaxLength), any(base.Schema.Pattern), any(base.Schema.MinItems), any(base.Schema.MaxItems), any(base.Schema.UniqueItems), any(base.Schema.Enum), any(elems([]*yaml.Node)), any(base.Schema.Description), any(base.Schema.Required), any(base.Schema.Properties), any(elems([]string)), any(elems(map[string]*base.SchemaProxy)), any(elems(map[string]*v3.MediaType)), any(base.Schema), any(elems(map[string]interface{})), any(elems([]interface{}))
-//@ requires config != nil
+//@ requires config != nil && models != nil
 //@ requires swagtool.emittable(defs)
 //@ requires swagtool.uniqueSchemes(config.SecuritySchemes)
 //@ mayemit validatedSpec, rendered31, routeRegistered31
@@ -77,9 +124,19 @@ package swagen31
 //@ ensures frameTrace: forall(it, *v3.PathItem, implies(old(allocated(it)) && !(it == doc.Paths.PathItems[fullPath(def, route)] && string(route.HttpVerb) == "TRACE"), it.Trace == old(it.Trace)))
 //@ ensures paths: implies(old(doc.Paths != nil), doc.Paths == old(doc.Paths) && forall(k, string, implies(k != fullPath(def, route), indom(doc.Paths.PathItems, k) == old(indom(doc.Paths.PathItems, k)) && doc.Paths.PathItems[k] == old(doc.Paths.PathItems[k]))))
 
-// assumed: schema construction by type name (recursion over type names, libopenapi constructors)
-//@ func InterfaceToSchemaV3 trusted
-//@ ensures result != nil
+// schema construction by type name: a named (non-generic) object becomes a reference proxy, which has no schema of
+// its own (assumed of libopenapi: Schema() of an unresolved reference proxy is nil - this is what R12 crashed on);
+// anything else owns a fresh schema. Recursion over item types goes through this same contract.
+//@ ufunc isRefProxy(p *base.SchemaProxy) bool
+//@ extern github.com/pb33f/libopenapi/datamodel/high/base.CreateSchemaProxyRef
+//@ ensures result != nil && fresh(result) && isRefProxy(result) && schemaOf(result) == nil
+//@ extern github.com/pb33f/libopenapi/datamodel/high/base.SchemaProxy.IsReference
+//@ ensures result == isRefProxy(sp)
+//@ func InterfaceToSchemaV3 props C07,C08,C14
+//@ ensures result != nil && fresh(result)
+//@ ensures isRef: isRefProxy(result) == (swagtool.ToOpenApiType(interfaceType) == "object" && !swagtool.IsGenericObject(interfaceType))
+//@ ensures owns: implies(!isRefProxy(result), schemaOf(result) != nil && fresh(schemaOf(result)))
+//@ ensures refNil: implies(isRefProxy(result), schemaOf(result) == nil)
 //@ func ToOpenApiSchemaV3 props C06,C11,C14
 //@ ensures result != nil && fresh(result) && len(result.Required) == 0 && result.Properties == nil && len(result.Enum) == 0
 // assumed: Schema() is a function of the proxy (libopenapi caches the rendered schema)
@@ -103,7 +160,7 @@ package swagen31
 
 // assumed: CreateSchemaProxy wraps the given schema and Schema() hands it back
 //@ extern github.com/pb33f/libopenapi/datamodel/high/base.CreateSchemaProxy
-//@ ensures result != nil && fresh(result) && schemaOf(result) == schema
+//@ ensures result != nil && fresh(result) && schemaOf(result) == schema && !isRefProxy(result)
 
 //@ spec formShaped31(rb *v3.RequestBody) bool = rb != nil && rb.Content != nil && rb.Content.OrderedMap != nil && indom(rb.Content, "application/x-www-form-urlencoded") && rb.Content["application/x-www-form-urlencoded"] != nil && rb.Content["application/x-www-form-urlencoded"].Schema != nil && implies(schemaOf(rb.Content["application/x-www-form-urlencoded"].Schema) != nil, schemaOf(rb.Content["application/x-www-form-urlencoded"].Schema).Properties != nil && schemaOf(rb.Content["application/x-www-form-urlencoded"].Schema).Properties.OrderedMap != nil)
 //@ spec formSchema31(rb *v3.RequestBody) *base.Schema = schemaOf(rb.Content["application/x-www-form-urlencoded"].Schema)
